@@ -66,6 +66,7 @@ mod distinct2;
 mod distinct3;
 mod gen;
 mod reject;
+mod round4;
 mod walk;
 
 pub struct Ctx {
@@ -310,6 +311,10 @@ fn run(cfg: &Config, s: &mut Session) {
     }
     if only.is_empty() || only == "mr" {
         reject::run(cfg, s, &mut cx);
+    }
+    if only.is_empty() || only == "r4" {
+        let mut d = distinct::D::new();
+        round4::run(cfg, s, &mut cx, &mut d);
     }
     if only.is_empty() {
         // every generator family the inventory tie (translate/handwritten_write_cover.json) relies on must have
